@@ -489,6 +489,8 @@ fn deep_family(ctx: &Ctx) {
             jobs.push((kind, *n));
         }
     }
+    // recursion deeper than a 15-bit count
+    jobs.push((0, 40_000));
     // long programs: a label behind n instructions
     for n in [100u16, 40_000, 65_534, 65_535] {
         jobs.push((4, n));
